@@ -1,0 +1,238 @@
+//go:build verif
+
+package quic
+
+// Export shims for the verification harness in /verif. Compiled only with -tags verif.
+// They add no behaviour: they construct unexported components and forward to unexported
+// methods, or read state.
+
+import (
+	"context"
+	"time"
+
+	"github.com/refraction-networking/uquic/internal/ackhandler"
+	"github.com/refraction-networking/uquic/internal/flowcontrol"
+	"github.com/refraction-networking/uquic/internal/monotime"
+	"github.com/refraction-networking/uquic/internal/protocol"
+	"github.com/refraction-networking/uquic/internal/wire"
+)
+
+// ---- frame sorter ----
+
+type VerifFrameSorter = frameSorter
+
+func VerifNewFrameSorter() *VerifFrameSorter { return newFrameSorter() }
+
+// ---- stream sender adapter ----
+
+// VerifStreamSender implements the unexported streamSender interface with function fields.
+type VerifStreamSender struct {
+	OnHasConnectionData     func()
+	OnHasStreamData         func(protocol.StreamID, *SendStream)
+	OnHasStreamControlFrame func(protocol.StreamID, VerifControlFrameGetter)
+	OnStreamCompleted       func(protocol.StreamID)
+}
+
+// VerifControlFrameGetter wraps a streamControlFrameGetter.
+type VerifControlFrameGetter struct{ g streamControlFrameGetter }
+
+func (g VerifControlFrameGetter) GetControlFrame(now monotime.Time) (ackhandler.Frame, bool, bool) {
+	return g.g.getControlFrame(now)
+}
+
+type verifSender struct{ s *VerifStreamSender }
+
+func (v verifSender) onHasConnectionData() {
+	if v.s.OnHasConnectionData != nil {
+		v.s.OnHasConnectionData()
+	}
+}
+
+func (v verifSender) onHasStreamData(id protocol.StreamID, str *SendStream) {
+	if v.s.OnHasStreamData != nil {
+		v.s.OnHasStreamData(id, str)
+	}
+}
+
+func (v verifSender) onHasStreamControlFrame(id protocol.StreamID, g streamControlFrameGetter) {
+	if v.s.OnHasStreamControlFrame != nil {
+		v.s.OnHasStreamControlFrame(id, VerifControlFrameGetter{g})
+	}
+}
+
+func (v verifSender) onStreamCompleted(id protocol.StreamID) {
+	if v.s.OnStreamCompleted != nil {
+		v.s.OnStreamCompleted(id)
+	}
+}
+
+// ---- streams ----
+
+func VerifNewReceiveStream(id protocol.StreamID, sender *VerifStreamSender, fc flowcontrol.StreamFlowController) *ReceiveStream {
+	return newReceiveStream(id, verifSender{sender}, fc)
+}
+
+func VerifNewSendStream(ctx context.Context, id protocol.StreamID, sender *VerifStreamSender, fc flowcontrol.StreamFlowController, supportsResetStreamAt bool) *SendStream {
+	return newSendStream(ctx, id, verifSender{sender}, fc, supportsResetStreamAt)
+}
+
+func VerifNewStream(ctx context.Context, id protocol.StreamID, sender *VerifStreamSender, fc flowcontrol.StreamFlowController, supportsResetStreamAt bool) *Stream {
+	return newStream(ctx, id, verifSender{sender}, fc, supportsResetStreamAt)
+}
+
+func (s *ReceiveStream) VerifHandleStreamFrame(f *wire.StreamFrame, now monotime.Time) error {
+	return s.handleStreamFrame(f, now)
+}
+
+func (s *ReceiveStream) VerifHandleResetStreamFrame(f *wire.ResetStreamFrame, now monotime.Time) error {
+	return s.handleResetStreamFrame(f, now)
+}
+
+func (s *ReceiveStream) VerifGetControlFrame(now monotime.Time) (ackhandler.Frame, bool, bool) {
+	return s.getControlFrame(now)
+}
+
+func (s *ReceiveStream) VerifCloseForShutdown(err error) { s.closeForShutdown(err) }
+
+func (s *SendStream) VerifPopStreamFrame(maxBytes protocol.ByteCount, v protocol.Version) (ackhandler.StreamFrame, *wire.StreamDataBlockedFrame, bool) {
+	return s.popStreamFrame(maxBytes, v)
+}
+
+func (s *SendStream) VerifUpdateSendWindow(limit protocol.ByteCount) { s.updateSendWindow(limit) }
+
+func (s *SendStream) VerifHandleStopSendingFrame(f *wire.StopSendingFrame) {
+	s.handleStopSendingFrame(f)
+}
+
+func (s *SendStream) VerifGetControlFrame(now monotime.Time) (ackhandler.Frame, bool, bool) {
+	return s.getControlFrame(now)
+}
+
+func (s *SendStream) VerifCloseForShutdown(err error) { s.closeForShutdown(err) }
+
+func (s *SendStream) VerifEnableResetStreamAt() { s.enableResetStreamAt() }
+
+func (s *Stream) VerifHandleStreamFrame(f *wire.StreamFrame, now monotime.Time) error {
+	return s.handleStreamFrame(f, now)
+}
+
+func (s *Stream) VerifHandleResetStreamFrame(f *wire.ResetStreamFrame, now monotime.Time) error {
+	return s.handleResetStreamFrame(f, now)
+}
+
+func (s *Stream) VerifHandleStopSendingFrame(f *wire.StopSendingFrame) { s.handleStopSendingFrame(f) }
+
+func (s *Stream) VerifUpdateSendWindow(limit protocol.ByteCount) { s.updateSendWindow(limit) }
+
+func (s *Stream) VerifPopStreamFrame(maxBytes protocol.ByteCount, v protocol.Version) (ackhandler.StreamFrame, *wire.StreamDataBlockedFrame, bool) {
+	return s.popStreamFrame(maxBytes, v)
+}
+
+func (s *Stream) VerifGetControlFrame(now monotime.Time) (ackhandler.Frame, bool, bool) {
+	return s.getControlFrame(now)
+}
+
+func (s *Stream) VerifCloseForShutdown(err error) { s.closeForShutdown(err) }
+
+// ---- crypto streams ----
+
+type (
+	VerifCryptoStream        = cryptoStream
+	VerifInitialCryptoStream = initialCryptoStream
+)
+
+func VerifNewCryptoStream() *VerifCryptoStream { return newCryptoStream() }
+
+func VerifNewInitialCryptoStream(isClient bool) *VerifInitialCryptoStream {
+	return newInitialCryptoStream(isClient)
+}
+
+// ---- streams map ----
+
+type VerifStreamsMap = streamsMap
+
+func VerifNewStreamsMap(
+	ctx context.Context,
+	sender *VerifStreamSender,
+	queueControlFrame func(wire.Frame),
+	newFlowController func(protocol.StreamID) flowcontrol.StreamFlowController,
+	maxIncomingBidiStreams, maxIncomingUniStreams uint64,
+	perspective protocol.Perspective,
+) *VerifStreamsMap {
+	return newStreamsMap(ctx, verifSender{sender}, queueControlFrame, newFlowController, maxIncomingBidiStreams, maxIncomingUniStreams, perspective)
+}
+
+// ---- connection ID manager / generator ----
+
+type (
+	VerifConnIDManager   = connIDManager
+	VerifConnIDGenerator = connIDGenerator
+	VerifPathID          = pathID
+)
+
+func VerifNewConnIDManager(
+	initialDestConnID protocol.ConnectionID,
+	addStatelessResetToken func(protocol.StatelessResetToken),
+	removeStatelessResetToken func(protocol.StatelessResetToken),
+	queueControlFrame func(wire.Frame),
+) *VerifConnIDManager {
+	return newConnIDManager(initialDestConnID, addStatelessResetToken, removeStatelessResetToken, queueControlFrame)
+}
+
+// VerifConnIDCallbacks records what a connIDGenerator asks its runner to route.
+type VerifConnIDCallbacks struct {
+	AddConnectionID    func(protocol.ConnectionID)
+	RemoveConnectionID func(protocol.ConnectionID)
+	ReplaceWithClosed  func([]protocol.ConnectionID, []byte, time.Duration)
+}
+
+type verifRunner struct{ cb *VerifConnIDCallbacks }
+
+func (r verifRunner) Add(id protocol.ConnectionID, _ packetHandler) bool {
+	r.cb.AddConnectionID(id)
+	return true
+}
+func (r verifRunner) Remove(id protocol.ConnectionID) { r.cb.RemoveConnectionID(id) }
+func (r verifRunner) ReplaceWithClosed(ids []protocol.ConnectionID, b []byte, d time.Duration) {
+	r.cb.ReplaceWithClosed(ids, b, d)
+}
+func (r verifRunner) AddResetToken(protocol.StatelessResetToken, packetHandler) {}
+func (r verifRunner) RemoveResetToken(protocol.StatelessResetToken)             {}
+
+func VerifNewConnIDGenerator(
+	initialConnectionID protocol.ConnectionID,
+	initialClientDestConnID *protocol.ConnectionID, // nil for the client
+	statelessResetKey *StatelessResetKey,
+	cb *VerifConnIDCallbacks,
+	queueControlFrame func(wire.Frame),
+	generator ConnectionIDGenerator,
+) *VerifConnIDGenerator {
+	return newConnIDGenerator(
+		verifRunner{cb},
+		initialConnectionID,
+		initialClientDestConnID,
+		newStatelessResetter(statelessResetKey),
+		connRunnerCallbacks{
+			AddConnectionID:    cb.AddConnectionID,
+			RemoveConnectionID: cb.RemoveConnectionID,
+			ReplaceWithClosed:  cb.ReplaceWithClosed,
+		},
+		queueControlFrame,
+		generator,
+	)
+}
+
+// ---- transport routing ----
+
+// VerifRouting returns the connection IDs and stateless reset tokens currently routed.
+func (t *Transport) VerifRouting() (ids []protocol.ConnectionID, tokens []protocol.StatelessResetToken) {
+	t.mutex.Lock()
+	defer t.mutex.Unlock()
+	for id := range t.handlers {
+		ids = append(ids, id)
+	}
+	for tok := range t.resetTokens {
+		tokens = append(tokens, tok)
+	}
+	return ids, tokens
+}
